@@ -1,5 +1,6 @@
 import SafeNet.Proofs.Parsers
 import SafeNet.Proofs.ParsersExt
+import SafeNet.Proofs.ParsersR6
 import SafeNet.Proofs.Amount
 /-!
 # C17 — parsers of untrusted text and bytes never crash; formatter output parses back
@@ -1227,9 +1228,15 @@ theorem new_custom_panics_on_malformed : ¬ NewCustomNeverPanics := by
   have := h false true true
   simp [evmNewCustom, customNetwork, newCustomChecked, Res.isPanic] at this
 
-/-- What does hold: well-formed arguments never panic. -/
-theorem no_panic_new_custom_partial : evmNewCustom true true true = .ok () := by
-  simp [evmNewCustom, customNetwork]
+/-- The same `CustomNetwork::new` has a second public door, `evmlib::utils::get_evm_network` (what the wasm bindings
+call with the three texts typed on a web page): K-u covers both. -/
+theorem get_evm_network_panics_on_malformed :
+    getEvmNetworkSites = [] ∧ evmGetNetwork false true true = .panic .unwrap ∧ evmGetNetwork true false true = .panic .unwrap := by
+  refine ⟨by decide, by decide, by decide⟩
+
+/-- What does hold: well-formed arguments never panic (either door). -/
+theorem no_panic_new_custom_partial : evmNewCustom true true true = .ok () ∧ evmGetNetwork true true true = .ok () := by
+  simp [evmNewCustom, evmGetNetwork, customNetwork]
 
 /-! ### nat-detection, the metrics tool -/
 
@@ -1418,6 +1425,206 @@ example : metricServers [(true, none), (false, some true)] = .ok 1 := by decide
 example : relativeFilePath [.cur, .normal [97]] [.cur] false = .ok [.cur, .normal [97]] := by decide
 example : relativeFilePath [.root, .normal [97], .normal [98]] [.root, .normal [97]] false = .ok [.normal [97], .normal [98]] := by decide
 
+/-! ## Round 6: the consumers of accepted values
+
+A value its parser accepts goes on into arithmetic, indexing or an `unwrap` (`SafeNet.Model.ParsersR6`).  Each model
+takes the shape flag explicitly (`…With`): the `no_panic_*` theorem is about the shape `rs2lean` reads from the
+source today, the `*_panicked_before` theorem is the concrete input on the shape before the repair. -/
+
+/-- A data map (decoded from a chunk anyone can store, or from the text the user pastes) never panics the download:
+`fetch_from_data_map` refuses a map with fewer than three chunks or a stored index ≥ the chunk count before it
+fetches anything, and for every map it lets through none of `self_encryption`'s three unchecked index expressions
+(`chunk_hashes[index]`, `[n_1]`, `[n_2]`) nor the `len - 1` / `len - 2` of `get_n_1_n_2` can fail — for every
+number of levels, every fetch outcome and every verdict of the (abstract) cryptography. -/
+theorem no_panic_data_map_fetch :
+    fetchFromDataMapSites = [] ∧ fetchFromDataMapChunkSites = [] ∧ dataMapGuarded = true ∧
+    (∀ idxs : List Nat, dataMapWellFormed idxs = true → seDecryptSites idxs = .ok ()) ∧
+    ∀ levels : List (Option MapLevel), (dataMapFetch levels).isPanic = false := by
+  have hg : dataMapGuarded = true := by decide
+  have hmin : dataMapMinChunks = 3 := by decide
+  have hwf : ∀ idxs : List Nat, dataMapWellFormed idxs = true → seDecryptSites idxs = .ok () := by
+    intro idxs h
+    unfold dataMapWellFormed at h
+    simp only [hmin, Bool.and_eq_true, decide_eq_true_eq, List.all_eq_true] at h
+    unfold seDecryptSites
+    split
+    · exact seDecryptSitesGo_ok h.1 idxs h.2
+    · rfl
+  refine ⟨by decide, by decide, hg, hwf, fun levels => ?_⟩
+  unfold dataMapFetch
+  rw [hg]
+  induction levels with
+  | nil => rfl
+  | cons l rest ih =>
+    cases l with
+    | none => rfl
+    | some l =>
+      unfold dataMapFetchWith
+      by_cases hw : dataMapWellFormed l.idxs = true
+      · simp only [hw, Bool.not_true, Bool.and_false, Bool.false_eq_true, ↓reduceIte, hwf l.idxs hw]
+        split
+        · rfl
+        · split
+          · rfl
+          · split
+            · exact ih
+            · rfl
+      · simp [hw, Res.isPanic]
+
+/-- The check refuses nothing the encryptor produces: `n ≥ 3` chunks numbered `0 … n-1` in any order pass. -/
+theorem data_map_guard_accepts_genuine (idxs : List Nat) (h3 : 3 ≤ idxs.length) (h : ∀ i ∈ idxs, i < idxs.length) :
+    dataMapWellFormed idxs = true := by
+  have hmin : dataMapMinChunks = 3 := by decide
+  unfold dataMapWellFormed
+  simp only [hmin, Bool.and_eq_true, decide_eq_true_eq, List.all_eq_true]
+  exact ⟨h3, h⟩
+
+/-- Before the repair (`fixed:` in known_findings.jsonl): a one-chunk data map underflowed `total - 2`, an index past
+the end indexed out of bounds — in `data_get` / `data_get_public` / `ant file download`, on bytes an attacker stored. -/
+theorem data_map_panicked_before :
+    dataMapFetchWith false [some ⟨false, [0], true, false⟩] = .panic .overflow ∧
+    dataMapFetchWith false [some ⟨false, [0, 1, 5], true, false⟩] = .panic .sliceIndex ∧
+    dataMapFetchWith false [some ⟨true, [1], true, true⟩] = .panic .sliceIndex := by
+  refine ⟨by decide, by decide, by decide⟩
+
+/-- `add_node` numbers the new services in `u16` from the highest number recorded in the registry file: for every
+recorded number and every `--count` the result is the list of numbers or an error — none of `current + count`,
+`current + 1` and the `number += 1` after the last service overflows. -/
+theorem no_panic_add_node_numbering :
+    addNodeSites = [] ∧ addNumberingGuarded = true ∧ nodeNumberWidth = 16 ∧
+    ∀ current count : Nat, current < 2 ^ 16 → count < 2 ^ 16 → (addNumbering current count).isPanic = false := by
+  have hg : addNumberingGuarded = true := by decide
+  have hw : nodeNumberWidth = 16 := by decide
+  refine ⟨by decide, hg, hw, fun current count _ _ => ?_⟩
+  unfold addNumbering addNumberingWith
+  simp only [hg, hw, Bool.true_and]
+  by_cases h : current + count + 1 < 2 ^ 16
+  · have h1 : current + count < 2 ^ 16 := by omega
+    have h2 : current + 1 < 2 ^ 16 := by omega
+    have hl := numberLoop_ok 16 (count + 1) (current + 1) (current + count) h (by omega)
+    simp [checkedAdd, uadd, h, h1, h2, hl, Res.isPanic]
+  · by_cases h1 : current + count < 2 ^ 16
+    · simp [checkedAdd, h, h1, Res.isPanic]
+    · simp [checkedAdd, h1, Res.isPanic]
+
+/-- …and it is exact: within the range the new services get `current + 1 … current + count`; a request that would
+reach past number 65534 is refused (65535 is never handed out: the loop's final `+= 1` needs one more). -/
+theorem add_node_numbering_exact (current count : Nat) :
+    addNumbering current count =
+      if current + count + 1 < 2 ^ 16 then .ok (List.range' (current + 1) count) else .err () := by
+  have hg : addNumberingGuarded = true := by decide
+  have hw : nodeNumberWidth = 16 := by decide
+  unfold addNumbering addNumberingWith
+  simp only [hg, hw, Bool.true_and]
+  by_cases h : current + count + 1 < 2 ^ 16
+  · have h1 : current + count < 2 ^ 16 := by omega
+    have h2 : current + 1 < 2 ^ 16 := by omega
+    have hl := numberLoop_ok 16 (count + 1) (current + 1) (current + count) h (by omega)
+    have hc : current + count + 1 - (current + 1) = count := by omega
+    simp [checkedAdd, uadd, h, h1, h2, hl, hc]
+  · by_cases h1 : current + count < 2 ^ 16
+    · simp [checkedAdd, h, h1]
+    · simp [checkedAdd, h, h1]
+
+/-- Before the repair: a registry file recording service number 65535 (or 65534: the `+= 1` after the last service),
+or `--count 65535` on a registry that is not empty, overflowed `u16`. -/
+theorem add_node_numbering_panicked_before :
+    addNumberingWith false 65535 1 = .panic .overflow ∧ addNumberingWith false 65534 1 = .panic .overflow ∧
+    addNumberingWith false 1 65535 = .panic .overflow ∧ addNumberingWith false 65535 0 = .panic .overflow := by
+  refine ⟨by decide, by decide, by decide, by decide⟩
+
+/-- The metrics tool: every URL `get_metric_servers` accepts — with an explicit port, on its scheme's default port
+(`http://127.0.0.1:80/metrics`: `port()` is `None`), or with no port at all — gives a Prometheus configuration. -/
+theorem no_panic_prometheus_config :
+    promConfigSites = [] ∧ lastNCharsSites = [] ∧ promPortChecked = true ∧
+    ∀ u : UrlPort, (promConfig u).isPanic = false := by
+  refine ⟨by decide, by decide, by decide, fun u => ?_⟩
+  cases u <;> decide
+
+theorem prometheus_config_panicked_before :
+    promConfigWith false .dflt = .panic .unwrap ∧ promConfigWith false .absent = .panic .unwrap := by
+  refine ⟨by decide, by decide⟩
+
+/-- ant-logging: for all `--max-log-files` / `--max-archived-log-files` values (`usize`, also read back from the
+registry) the total handed to the file rotater is `min (archived + plain) usize::MAX`, never an overflow. -/
+theorem no_panic_log_file_limits :
+    fmtLayerSites = [] ∧ logFilesAddSaturating = true ∧
+    ∀ u c : Option Nat, ∃ unc total, logFileLimits u c = .ok (unc, total) ∧
+      (∀ cv, c = some cv → total = min (cv + unc) (2 ^ 64 - 1)) := by
+  have hs : logFilesAddSaturating = true := by decide
+  refine ⟨by decide, hs, fun u c => ?_⟩
+  unfold logFileLimits logFileLimitsWith
+  cases c with
+  | none => exact ⟨_, _, rfl, fun cv h => by cases h⟩
+  | some cv =>
+    simp only [hs, ↓reduceIte]
+    refine ⟨_, _, rfl, fun cv' h => ?_⟩
+    cases h
+    unfold saturatingAdd
+    split <;> omega
+
+theorem log_file_limits_panicked_before :
+    logFileLimitsWith false (some (2 ^ 64 - 1)) (some 1) = .error .overflow ∧
+    logFileLimitsWith false none (some (2 ^ 64 - 1)) = .error .overflow := by
+  refine ⟨rfl, rfl⟩
+
+/-- `antctl local kill` on a registry file whose faucet entry has `"pid":null`, and the `debug!` of `antctl upgrade`
+on a registry without services: a value, not a panic.  The one site the scan still reports in `upgrade` is
+`node_registry.nodes[index]` with `index` from `get_services_for_ops`, i.e. a `position` in that same list. -/
+theorem no_panic_registry_consumers :
+    killNetworkSites = [] ∧ faucetPidChecked = true ∧ upgradeSites = ["index"] ∧ upgradeFirstNodeChecked = true ∧
+    (∀ f : Option (Option Nat), (killFaucet f).isPanic = false) ∧ ∀ n : Nat, (upgradeFirstNode n).isPanic = false := by
+  refine ⟨by decide, by decide, by decide, by decide, fun f => ?_, fun n => ?_⟩
+  · match f with
+    | none => rfl
+    | some (some _) => rfl
+    | some none => decide
+  · unfold upgradeFirstNode upgradeFirstNodeWith
+    have : upgradeFirstNodeChecked = true := by decide
+    simp [this, Res.isPanic]
+
+theorem registry_consumers_panicked_before :
+    killFaucetWith false (some none) = .panic .unwrap ∧ upgradeFirstNodeWith false 0 = .panic .sliceIndex := by
+  refine ⟨by decide, by decide⟩
+
+/-- The round-trip clause for `LogOutputDest` (`Display` / `parse_from_str`), full statement. -/
+def LogDestRoundTrips : Prop := ∀ d : LogDest, logDestRoundTrip d = some d
+
+/-- It is FALSE as worded: `Stderr` prints `stderr`, which parses as the directory `stderr` (the parser has no such
+keyword), and the directories `stdout` / `data-dir` print a keyword.  `Display` only feeds the start-up message
+(`antnode` prints where it logs); nothing parses it back — recorded as a declared exception, not a defect. -/
+theorem log_dest_display_not_parsed_back :
+    ¬ LogDestRoundTrips ∧ logDestRoundTrip .stderr = some (.path [115, 116, 100, 101, 114, 114]) ∧
+    logDestRoundTrip (.path [115, 116, 100, 111, 117, 116]) = some .stdout ∧
+    logDestRoundTrip (.path [100, 97, 116, 97, 45, 100, 105, 114]) = none := by
+  refine ⟨fun h => ?_, by decide, by decide, by decide⟩
+  have := h .stderr
+  revert this
+  decide
+
+/-- What does hold: `Stdout`, and every directory that is not a keyword of the parser, parse back to themselves. -/
+theorem log_dest_roundtrip_partial :
+    logDestDisplaySites = [] ∧ logDestRoundTrip .stdout = some .stdout ∧
+    ∀ p : Bytes, (∀ k ∈ logDestKeywordBytes, k.1 ≠ p) → logDestRoundTrip (.path p) = some (.path p) := by
+  refine ⟨by decide, by decide, fun p h => ?_⟩
+  have : logDestKeywordBytes.find? (fun k => k.1 == p) = none := by
+    rw [List.find?_eq_none]
+    intro k hk
+    simpa using h k hk
+  simp [logDestRoundTrip, logDestDisplay, logDestParseValue, this]
+
+example : dataMapFetch [some ⟨false, [0, 1, 2], true, true⟩] = .ok () := by decide
+example : dataMapFetch [some ⟨false, [2, 0, 1], true, false⟩] = .err () := by decide
+example : dataMapFetch [some ⟨false, [0], true, false⟩] = .err () := by decide
+example : dataMapFetch [some ⟨true, [0, 1, 2], true, true⟩, some ⟨false, [0, 1, 2, 3], true, true⟩] = .ok () := by decide
+example : addNumbering 0 3 = .ok [1, 2, 3] := by decide
+example : addNumbering 65530 4 = .ok [65531, 65532, 65533, 65534] := by decide
+example : addNumbering 65530 5 = .err () := by decide
+example : promConfig .dflt = .ok 1 := by decide
+example : promConfig .bad = .err () := by decide
+example : logFileLimits (some (2 ^ 64 - 1)) (some 1) = .ok (2 ^ 64 - 1, 2 ^ 64 - 1) := rfl
+example : logFileLimits none none = .ok (10, 1000) := rfl
+
 end SafeNet.Props.C17
 
 #print axioms SafeNet.Props.C17.no_panic_register_from_hex
@@ -1473,6 +1680,7 @@ end SafeNet.Props.C17
 #print axioms SafeNet.Props.C17.no_panic_contacts_parse
 #print axioms SafeNet.Props.C17.no_panic_evm_network_from_env
 #print axioms SafeNet.Props.C17.new_custom_panics_on_malformed
+#print axioms SafeNet.Props.C17.get_evm_network_panics_on_malformed
 #print axioms SafeNet.Props.C17.no_panic_new_custom_partial
 #print axioms SafeNet.Props.C17.no_panic_nat_peer_addr
 #print axioms SafeNet.Props.C17.no_panic_metric_servers
@@ -1482,3 +1690,17 @@ end SafeNet.Props.C17
 #print axioms SafeNet.Props.C17.no_panic_relative_file_path
 #print axioms SafeNet.Props.C17.no_panic_msgpack_decoders
 #print axioms SafeNet.Props.C17.atto_remainder_scale_in_range
+#print axioms SafeNet.Props.C17.no_panic_data_map_fetch
+#print axioms SafeNet.Props.C17.data_map_guard_accepts_genuine
+#print axioms SafeNet.Props.C17.data_map_panicked_before
+#print axioms SafeNet.Props.C17.no_panic_add_node_numbering
+#print axioms SafeNet.Props.C17.add_node_numbering_exact
+#print axioms SafeNet.Props.C17.add_node_numbering_panicked_before
+#print axioms SafeNet.Props.C17.no_panic_prometheus_config
+#print axioms SafeNet.Props.C17.prometheus_config_panicked_before
+#print axioms SafeNet.Props.C17.no_panic_log_file_limits
+#print axioms SafeNet.Props.C17.log_file_limits_panicked_before
+#print axioms SafeNet.Props.C17.log_dest_display_not_parsed_back
+#print axioms SafeNet.Props.C17.log_dest_roundtrip_partial
+#print axioms SafeNet.Props.C17.no_panic_registry_consumers
+#print axioms SafeNet.Props.C17.registry_consumers_panicked_before
